@@ -6,8 +6,12 @@ use crate::child::{fail, note, probe};
 use crate::json::J;
 use crate::obj;
 use libc::c_int;
+use open_coroutine_core::common::constants::{CoroutineState, SyscallState};
 use open_coroutine_core::common::now;
+use open_coroutine_core::coroutine::listener::Listener;
+use open_coroutine_core::coroutine::local::CoroutineLocal;
 use open_coroutine_core::net::EventLoops;
+use open_coroutine_core::scheduler::{SchedulableCoroutine, SchedulableCoroutineState};
 use open_coroutine_core::syscall as hk;
 use std::sync::{Arc, Mutex as StdMutex};
 use std::time::Duration;
@@ -32,7 +36,28 @@ fn gen_ready(g: &mut Rng, _tier: Tier) -> J {
         // when the peer writes, relative to the moment all waiters are blocked
         "write_after_us" => g.range(500, 48_000),
         "second_write" => g.chance(1, 3),
-        "sim" => gen_sim(g, SimOpts { max_points: 3_000_000, max_sim_ms: 30_000, ..SimOpts::default() }),
+        "sim" => gen_sim(g, SimOpts { max_points: 3_000_000, max_sim_ms: 30_000, timing: true, ..SimOpts::default() }),
+    }
+}
+
+/// what the scheduler last did to each waiter's coroutine: (parked until, woken by callback?, when)
+#[derive(Clone, Debug)]
+struct Spy {
+    log: Arc<StdMutex<Vec<(usize, SyscallState, u64)>>>,
+    /// waiter -> name of the thread whose scheduler parked it last
+    parked_by: Arc<StdMutex<Vec<(usize, String)>>>,
+}
+
+impl Listener<(), Option<usize>> for Spy {
+    fn on_state_changed(&self, local: &CoroutineLocal, _: SchedulableCoroutineState, new: SchedulableCoroutineState) {
+        if let (Some(i), CoroutineState::Syscall((), _, sub)) = (local.get::<usize>("waiter").copied(), new) {
+            self.log.lock().unwrap_or_else(|e| e.into_inner()).push((i, sub, now()));
+            if matches!(sub, SyscallState::Suspend(_)) {
+                let mut p = self.parked_by.lock().unwrap_or_else(|e| e.into_inner());
+                p.retain(|e| e.0 != i);
+                p.push((i, std::thread::current().name().unwrap_or("?").to_string()));
+            }
+        }
     }
 }
 
@@ -44,10 +69,61 @@ struct WaiterRec {
     byte: u8,
 }
 
+/// Root-cause probe: the descriptor's read interest is registered with the poller of one event loop
+/// while the scheduler of another loop's thread holds the parked coroutine (it moved between two
+/// waits of the same hooked call), so the readiness event is delivered where nobody can resume it.
+fn note_registration(spy: &Spy, waiter: usize, fd: c_int) {
+    let regs = pollers_with(fd);
+    let parked = spy.parked_by.lock().unwrap_or_else(|e| e.into_inner()).iter().find(|e| e.0 == waiter).map(|e| e.1.clone());
+    let Some(parked) = parked else { return };
+    if regs.is_empty() {
+        sim::count("cause.net.no-registration");
+        return;
+    }
+    let owners: Vec<String> = regs.iter().filter_map(|id| mio::vsim_poller_thread(*id)).collect();
+    note("registered_with", format!("{owners:?}"));
+    note("parked_by", parked.clone());
+    if !owners.is_empty() && !owners.contains(&parked) {
+        sim::count("cause.net.parked-away-from-registration");
+    }
+}
+
+/// ids of the pollers whose epoll instance has `fd` registered for reading
+fn pollers_with(fd: c_int) -> Vec<usize> {
+    let mut out = Vec::new();
+    for (id, epfd) in mio::vsim_pollers() {
+        let Ok(s) = std::fs::read_to_string(format!("/proc/self/fdinfo/{epfd}")) else { continue };
+        for line in s.lines() {
+            let mut it = line.split_whitespace();
+            if it.next() != Some("tfd:") {
+                continue;
+            }
+            if it.next().and_then(|x| x.parse::<c_int>().ok()) != Some(fd) {
+                continue;
+            }
+            if it.next() != Some("events:") {
+                continue;
+            }
+            let ev = it.next().and_then(|x| u32::from_str_radix(x, 16).ok()).unwrap_or(0);
+            if ev & 0x1 != 0 {
+                out.push(id);
+            }
+        }
+    }
+    out
+}
+
 fn body_ready(plan: &J) {
     let n = plan.gus("waiters").clamp(1, 3);
     let loops = plan.gus("loops").clamp(1, 2);
     init_runtime(loops, 0, 65536);
+    if loops as u64 > sim::knob("num_cpus", 16) {
+        // the global queue has one "thread-exclusive" local queue per CPU and hands them out round
+        // robin: with more schedulers than CPUs two event loops share one local queue
+        sim::count("cause.rt.loops-exceed-cpus");
+    }
+    let spy = Spy { log: Arc::new(StdMutex::new(Vec::new())), parked_by: Arc::new(StdMutex::new(Vec::new())) };
+    EventLoops::verif_add_listener(spy.clone());
     let recs: Arc<StdMutex<Vec<WaiterRec>>> = Arc::new(StdMutex::new(vec![WaiterRec::default(); n]));
     let mut socks = Vec::new();
     let mut handles = Vec::new();
@@ -59,6 +135,9 @@ fn body_ready(plan: &J) {
         handles.push(EventLoops::submit_task(
             Some(format!("waiter-{i}")),
             move |_| {
+                if let Some(co) = SchedulableCoroutine::current() {
+                    _ = co.put("waiter", i);
+                }
                 r.lock().unwrap_or_else(|e| e.into_inner())[i].started = Some(now());
                 let mut b = [0u8; 4];
                 let got = hk::recv(None, fd, b.as_mut_ptr().cast(), 1, 0);
@@ -84,10 +163,29 @@ fn body_ready(plan: &J) {
     vstd::thread::sleep(Duration::from_millis(25));
     vstd::thread::sleep(Duration::from_micros(plan.gu("write_after_us")));
     let target = plan.gus("target") % n;
+    // write while the target is parked and its own wait timeout is still at least 3 ms away, so
+    // that only the readiness event can explain a prompt wake-up
+    let mut tries = 0;
+    loop {
+        let last = spy.log.lock().unwrap_or_else(|e| e.into_inner()).iter().rev().find(|e| e.0 == target).cloned();
+        if let Some((_, SyscallState::Suspend(ts), _)) = last {
+            if ts > now() + 3_000_000 && ts != u64::MAX {
+                break;
+            }
+        }
+        tries += 1;
+        if tries > 400 {
+            return; // never observed parked with room to spare: nothing to decide in this run
+        }
+        vstd::thread::sleep(Duration::from_micros(500));
+    }
+    vstd::thread::sleep(Duration::from_micros(200 + plan.gu("write_after_us") % 1_500));
     if recs.lock().unwrap_or_else(|e| e.into_inner())[target].returned.is_some() {
         return; // already gone (cannot happen with a 400 ms timeout, but be safe)
     }
+    note_registration(&spy, target, socks[target].0);
     let payload = [0x40u8 + target as u8];
+    sim::point("harness.peer-write");
     let t1 = now();
     let w = unsafe { libc::write(socks[target].1, payload.as_ptr().cast(), 1) };
     if w != 1 {
@@ -101,10 +199,17 @@ fn body_ready(plan: &J) {
     note("write_offset_us", (t1 - t_begin) / 1000);
     match snap[target].returned {
         Some(t) if t <= t1 + 1_000_000 => {
+            note("wake_latency_us", (t - t1) / 1000);
             if snap[target].ret != 1 || snap[target].byte != payload[0] {
                 fail("wrong-data", format!("waiter {target} returned {} with byte {:#x}, the peer wrote {:#x}", snap[target].ret, snap[target].byte, payload[0]));
             }
             probe("ready.prompt");
+            let woke = spy.log.lock().unwrap_or_else(|e| e.into_inner()).iter().find(|e| e.0 == target && e.2 >= t1 && !matches!(e.1, SyscallState::Suspend(_))).cloned();
+            if let Some((_, sub, _)) = woke {
+                if sub == SyscallState::Timeout {
+                    fail("wake-late", format!("waiter {target} was resumed by its wait timeout, not by the readiness event, although the timeout was still more than a millisecond away"));
+                }
+            }
         }
         _ => {
             // how long does it really take?
@@ -133,6 +238,7 @@ fn body_ready(plan: &J) {
         // a second event for another descriptor, same check
         let t2i = (target + 1) % n;
         let p2 = [0x60u8 + t2i as u8];
+        note_registration(&spy, t2i, socks[t2i].0);
         let t2 = now();
         _ = unsafe { libc::write(socks[t2i].1, p2.as_ptr().cast(), 1) };
         mio::vsim_check_ready();
